@@ -70,7 +70,9 @@ func verifOpenDB(fs storage.FileSystem) *DB {
 	memSize := []uint64{10, 20, 40, 1 << 20}[verif.Choose("memtable", verif.Param("MEMSIZES", 2))]
 	// compaction after 2 or 3 level-0 tables
 	trigger := 2 + verif.Choose("l0trigger", verif.Param("TRIGGERS", 2))
-	return Open(DBOptions{FileSystem: fs, MemTableSize: memSize, TargetFileSize: 64, L0TableNumCompactionTrigger: trigger}, nil)
+	// table size: large enough for every run, or so small that a merged run is split into several tables
+	target := []uint64{64, 20}[verif.Choose("table-size", verif.Param("TARGETS", 2))]
+	return Open(DBOptions{FileSystem: fs, MemTableSize: memSize, TargetFileSize: target, L0TableNumCompactionTrigger: trigger}, nil)
 }
 
 // verifStep applies one symbolic operation to db and model.
